@@ -667,12 +667,21 @@ func (o *ObjectSchema) applySubObjectDefaultValues(
 		data = maps.Clone(existingFields)
 	}
 	subObjectDefaults := subObject.GetDefaults()
+	subProperties := subObject.Properties()
 	for k, v := range subObjectDefaults {
+		subProperty, isProperty := subProperties[k]
+		if !isProperty || subProperty.Disabled {
+			// A disabled property takes no value, its own default value included: the input did not use it.
+			continue
+		}
 		if _, isSet := data[k]; !isSet {
 			data[k] = v
 		}
 	}
-	for subPropertyID, subProperty := range subObject.Properties() {
+	for subPropertyID, subProperty := range subProperties {
+		if subProperty.Disabled {
+			continue
+		}
 		o.applySubObjectDefaultValues(subPropertyID, subProperty, data, path...)
 	}
 	subSchema, _ := ConvertToObjectSchema(subObject)
